@@ -41,7 +41,7 @@ def cfg_for(gated: set) -> pg.GenCfg:
 def gen(tier: str, seed: int) -> list[Case]:
     rng = rng_for(seed, PID, "gen")
     cfg = cfg_for(gated_features())
-    n = 24 if tier == "quick" else 400
+    n = 24 if tier == "quick" else 1600
     cases = []
     for i in range(n):
         pkg = pg.random_pkg(rng, cfg)
